@@ -73,3 +73,25 @@ Theorem C17_lwwreg s o v m :
   lww_conflict s (lww_val o) (lww_marker o) = lww_conflict o (lww_val s) (lww_marker s).
 Proof. exact (conj (C16_lww s v m) (C17_lww_sym s o)). Qed.
 Print Assumptions C17_lwwreg.
+
+From Crdt Require Import spec.System spec.OrswotSpec spec.OrswotSystem spec.MapSpec spec.MapSystem proofs.OrswotSystem proofs.MapKeys proofs.MapValidate.
+
+(** Map on correct use (API-generated ops, each actor confined to one replica; per-actor delivery,
+    duplicates, merges): never a double-spent dot - an update names ONE key, so the add_all
+    obstruction K2 does not exist at key level - and the verdict is the nested values' verdict alone *)
+Theorem C17_map_correct_use {V O E} (vo : valops V O E) (H : list (oprec (mop O))) s1 K1 s2 K2 :
+  maphist_ok vo H → mapreach vo H s1 K1 → mapreach vo H s2 K2 →
+  (¬ ∃ k e k' e' a n, mentries s1 !! k = Some e ∧ mentries s2 !! k' = Some e' ∧ eclock e !! a = Some n ∧
+                      k' ≠ k ∧ vget (eclock e') a = n) ∧
+  (mvalidate_merge vo s1 s2 = false ↔
+   ∃ k e e', mentries s1 !! k = Some e ∧ mentries s2 !! k = Some e' ∧
+             vconcurrent (eclock e) (eclock e') = true ∧ v_validate_merge vo (eval e) (eval e') = false).
+Proof. exact (λ Hok H1 H2, conj (map_no_double_spend vo H s1 K1 s2 K2 Hok H1 H2) (map_validate_merge_correct_use vo H s1 K1 s2 K2 Hok H1 H2)). Qed.
+Print Assumptions C17_map_correct_use.
+
+(** Map<_, MVReg>: correct use is always accepted *)
+Theorem C17_map_mvreg_correct_use_accepted (H : list (oprec (mop mvop))) s1 K1 s2 K2 :
+  maphist_ok mvreg_valops H → mapreach mvreg_valops H s1 K1 → mapreach mvreg_valops H s2 K2 →
+  mvalidate_merge mvreg_valops s1 s2 = true.
+Proof. exact (mapmv_validate_merge_accepts H s1 K1 s2 K2). Qed.
+Print Assumptions C17_map_mvreg_correct_use_accepted.
